@@ -488,6 +488,44 @@ def ctl_repeated():
     return repeated_family(xs, ys, wraps)
 
 
+def nary_family(xs, wraps, arities=(3, 4)):
+    """and / or nodes with 3 and 4 operands (the parsers build 'a or b or c' as ONE node) over the
+    operand pool xs, under the wrappers."""
+    out = []
+    n = len(xs)
+    for o in ('or', 'and'):
+        for i in range(n):
+            for j in range(n):
+                for k in range(n):
+                    if 3 in arities and len(set([i, j, k])) == 3:
+                        body = (o, xs[i], xs[j], xs[k])
+                        for w in wraps:
+                            out.append(w(body))
+        if 4 in arities:
+            for i in range(n):
+                body = (o, xs[i], xs[(i + 1) % n], xs[(i + 3) % n], xs[(i + 4) % n])
+                for w in wraps:
+                    out.append(w(body))
+    return out
+
+
+def ltl_nary():
+    xs = [P, Q, ('G', P), ('X', Q), ('F', Q), ('U', P, Q), ('not', ('X', P))]
+    return nary_family(xs, [lambda b: b, lambda b: ('X', b)])
+
+
+def ctls_nary():
+    xs = [P, Q, ('G', P), ('X', Q), ('F', Q), ('U', P, Q), ('F', ('G', P))]
+    wraps = [lambda b: ('E', b), lambda b: ('A', b), lambda b: ('not', ('E', b)), lambda b: ('A', ('G', ('E', b)))]
+    return nary_family(xs, wraps)
+
+
+def ctl_nary():
+    xs = [P, Q, ('E', ('G', P)), ('A', ('X', Q)), ('E', ('F', Q)), ('A', ('U', P, Q)), ('not', ('E', ('X', P)))]
+    wraps = [lambda b: b, lambda b: ('E', ('X', b)), lambda b: ('A', ('G', b)), lambda b: ('E', ('U', b, Q)), lambda b: ('not', b)]
+    return nary_family(xs, wraps)
+
+
 def ctls_siblings():
     """CTL* state formulas in which the SAME non-CTL path formula g is quantified twice, by the
     same or by different quantifiers, as siblings in a Boolean combination, at top level and under an
